@@ -245,8 +245,16 @@ pub fn remove_comments(definition: &str) -> String {
 /// - *parse_proj* will replace `k` with `k_0` whenever it is encountered.
 ///
 pub fn parse_proj(definition: &str) -> Result<String, Error> {
-    // If it doesn't look like a PROJ string, we return it unchanged
-    if definition.contains('|') | !definition.contains("proj") {
+    // If it doesn't look like a PROJ string, we return it unchanged: A PROJ string
+    // has at least one `proj=...` element. The word "proj" in a comment, a macro
+    // name or a value does not turn a Geodesy definition into a PROJ string
+    let looks_like_proj = !definition.contains('|')
+        && definition.contains("proj")
+        && remove_comments(definition)
+            .normalize()
+            .split_whitespace()
+            .any(|element| element.trim_start_matches('+').starts_with("proj="));
+    if !looks_like_proj {
         return Ok(definition.to_string());
     }
     // Impose some line ending sanity and remove the PROJ '+' prefix, i.e. a '+'
